@@ -27,6 +27,7 @@ func TestC11(t *testing.T) {
 		"files live on tmpfs; MMap files are compared after Close (they are extended while open)")
 	defer finishProperty(st)
 	t.Run("band", func(t *testing.T) { c11Band(t, st) })
+	t.Run("far-offsets", func(t *testing.T) { c11FarOffsets(t, st) })
 	t.Run("codec", func(t *testing.T) {
 		restore := scaleRapidChecks(4)
 		defer restore()
